@@ -957,6 +957,18 @@ def run(repo, rep):
     rep.check(not p5, 'C06.S5', 'dimsemessages:DIMSEMessage.encode:order-context', enc.loc(),
               'command before data; pc_id, control byte and fragment of the same iteration; one PDV per PDU', '; '.join(sorted(set(p5))))
 
+    # ---------------------------------------------------------------- S10: encoding is repeatable
+    rep.rule('C06.S10', 'encode() leaves the message as it found it: it (and the helpers it calls) binds no attribute of self, so a message '
+             'with an in-memory data set fragments to the same PDVs however often it is encoded (closing a file data set at the end is '
+             'not a change of the message)', 1)
+    c10 = SymClient(repo, enc, event_of=lambda *a_: None, hierarchy=hier, inline=repo.is_helper,
+                    store_event=lambda t_: t_.startswith('self.'))
+    c10.run(empty_state())
+    w10 = sorted({'line %d binds %s to %s' % (e_.line, e_.callee, e_.args[0] if e_.args else '?') for e_, _s in c10.log if e_.kind == 'store'})
+    rep.check(not w10, 'C06.S10', 'dimsemessages:DIMSEMessage.encode:read-only', enc.loc(), 'encode() and its helpers bind no attribute of the message',
+              'encode() changes the message while fragmenting it (%s): the next encode() of the same object does not produce the same '
+              'fragments' % '; '.join(w10))
+
     # ---------------------------------------------------------------- S8
     from ..codec_rules import check_wire
     check_wire(lx, rep, prefix='C06', only=('PDataTfPDU', 'PresentationDataValueItem'),
